@@ -665,3 +665,19 @@ func TestStreams(t *testing.T) {
 	vf.RunRapid(t, "streams", genSCase, checkS)
 	vf.U("streams").Extra("coverage_table", "class labels 'cov|<mode>|<length class>|w<number of writes>'; '<mode>:<label>' counts ClientHello shapes (sni-only, ech-only, sni+ech, cuts-overlap, cut-at-end ...) and stream behaviours (deferred-frames, multi-packet, popall, second-flight)")
 }
+
+// FuzzStreams drives the stream generator and oracle from coverage-guided bytes (the scrambler's
+// ClientHello parser included).
+func FuzzStreams(f *testing.F) {
+	u := vf.U("streams-fuzz")
+	for _, s := range [][]byte{{}, {0}, {1, 2, 3, 4, 5, 6, 7, 8}, bytes.Repeat([]byte{0xff}, 64), bytes.Repeat([]byte{0x3f, 0x40, 0x7f, 0x80}, 32), bytes.Repeat([]byte{0, 0xff}, 128)} {
+		f.Add(s)
+	}
+	f.Fuzz(rapid.MakeFuzz(func(rt *rapid.T) {
+		c := genSCase(rt)
+		u.Case()
+		if v := vf.Guard("C09/streams-fuzz", func() *vf.Verdict { return checkS(c, u) }); v != nil {
+			u.Fail(rt, v, c)
+		}
+	}))
+}
